@@ -68,3 +68,9 @@ def sched_case(fn, seed=0, policy='random', p_switch=0.25, line_p=0.0, horizon=3
             box['abort'] = e
     s.run(body)
     return box.get('result'), box.get('abort'), s
+
+
+def line_p_for(seed, every=6, p=0.15):
+    """Statement-level pre-emption probability for this case: one case in `every` is run with LINE-event
+    pre-emption (threads may be switched between any two statements), the others switch at blocking calls."""
+    return p if seed % every == every - 1 else 0.0
